@@ -79,7 +79,7 @@ Definition holds (c : case) : bool :=
 (* class of the case, consulted when the spec fails.  No finding class is open any more (theorem
    c19_property holds for every history), so this only NAMES the class a regression falls into: the
    trigger (1-5) of the first failing step if the failing clause is about the logout bookkeeping
-   (cl_pending, cl_ends), else 0.  All five classes are listed as fixed, so whatever is returned the
+   (cl_pending, cl_ends, cl_others), else 0.  All five classes are listed as fixed, so whatever is returned the
    driver reports a VIOLATION with the failing history. *)
 Fixpoint cls_from (w : world) (g : ghost) (vb : view) (tr : trace) : nat :=
   match tr with
